@@ -152,6 +152,7 @@ def run_history(seed, numeric_vars=False, with_model=True):
         st.old_keys = [list(e.items()) for e in st.old_ents]
         st.old_outs = [[o.target for o in e.outputs] for e in st.old_ents]
         st.old_fix = [[v for _, v in e.fixup.items()] for e in st.old_ents]
+        st.poisoned = any(k.casefold() == 'axis' and ',' not in v for e in st.old_ents for k, v in e.items())
         st.old_face_ids = [s.id for b in st.old_brushes for s in b.sides] + [s.id for e in st.old_ents for b in e.solids for s in b.sides]
         st.error = None
         st.model_req = None
@@ -246,7 +247,10 @@ def check_step(st, prng):
         elif kind == 'other':
             bad.append(('template-modified', f'collapse modified template {n}: {d}'))
     if st.error is not None:
-        bad.append(('collapse-raised', f'collapse_one raised {st.error}'))
+        # error path: a malformed value (VEC_AXIS without a comma) makes collapse_one raise half-way. The template must
+        # still be intact (checked above) and later collapses into the same map must be right (they are checked as usual).
+        if not st.poisoned:
+            bad.append(('collapse-raised', f'collapse_one raised {st.error}'))
         return bad
     if G.orth_error(R) > 1e-9:
         bad.append(('rotation-not-orthogonal', f'instance matrix deviates from orthogonal by {G.orth_error(R)}'))
@@ -789,7 +793,7 @@ def gen_graph(rng, thorough):
     return {'files': files, 'init': init, 'limit': limit}
 
 
-def build_graph(im, g):
+def build_graph(im, g, with_missing=False):
     VMF = im['VMF']
     rng = random.Random(json.dumps(g, sort_keys=True))
     n = len(g['files'])
@@ -814,6 +818,11 @@ def build_graph(im, g):
     for k in g['init']:
         (a, _), (o, _) = G.rand_angle(rng), G.rand_origin(rng)
         top.create_ent(G.case_variant(rng, 'func_instance', 0.3), file=name(k), targetname=rng.choice(['', 'top']), origin=G.fmt_vec(o), angles=G.fmt_vec(a))
+    if with_missing:
+        v = VMF()
+        v.add_brush(v.make_prism(im['Vec'](0, 0, 0), im['Vec'](24, 8, 40)).solid)
+        v.create_ent('info_target', targetname='was_missing', origin='4 4 4')
+        mapping[name(n)] = v.export(inc_version=False)
     spell = sorted({e['classname'] for t in [top] for e in t.entities} |
                    {m.group(1) for txt in mapping.values() for m in __import__('re').finditer(r'"classname" "([^"]*nstance)"', txt, 2)})
     return top, im['VirtualFileSystem'](mapping), spell
@@ -866,6 +875,60 @@ def run_collapse_all(im, g):
             'brushes': len(top.brushes), 'bound': bound, 'spell': spell}
 
 
+def _map_summary(top):
+    """Content of a collapsed map up to ids, entity order and the automatic instance names."""
+    return (sorted(tuple(round(c, 3) for p in s.planes for c in p) for b in top.brushes for s in b.sides),
+            sorted((e['classname'].casefold(), e['origin']) for e in top.entities))
+
+
+def _acyclic(g):
+    n = len(g['files'])
+    state = {}
+
+    def visit(i):
+        if i >= n or state.get(i) == 2:
+            return True
+        if state.get(i) == 1:
+            return False
+        state[i] = 1
+        ok = all(visit(k) for k in g['files'][i]['kids'])
+        state[i] = 2
+        return ok
+    return all(visit(i) for i in range(n))
+
+
+def retry_experiment(im, g, r):
+    """Error path: after collapse_all raised FileNotFoundError (RecursionError) a second call with the file present
+    (a larger limit) must end with the same map as a clean run - nothing may be lost by the failed attempt."""
+    I = im['I']
+    if r['outcome'] not in ('missing', 'recursion') or not _acyclic(g):
+        return []
+    lim2 = g['limit'] if r['outcome'] == 'missing' else 12
+    clean, fs_full, _ = build_graph(im, g, with_missing=True)
+    try:
+        I.collapse_all(clean, fs_full, recur_limit=lim2)
+    except (RecursionError, FileNotFoundError):
+        return []
+    top, fs_part, _ = build_graph(im, g, with_missing=False)
+    try:
+        I.collapse_all(top, fs_part if r['outcome'] == 'missing' else fs_full, recur_limit=g['limit'])
+        return []       # (set iteration order made this run pass)
+    except (RecursionError, FileNotFoundError) as e:
+        first = type(e).__name__
+    try:
+        I.collapse_all(top, fs_full, recur_limit=lim2)
+    except RecursionError:
+        return []
+    except Exception as e:
+        return [('error-path', f'after {first}, collapse_all on the same map (file now present / limit {lim2}) raised {type(e).__name__}: {e}; graph {g}')]
+    a, b = _map_summary(top), _map_summary(clean)
+    if a != b:
+        return [('error-path', f'after collapse_all raised {first}, calling it again with the file present / a larger limit does not give the map '
+                               f'a clean run gives: {len(a[0])} faces, {len(a[1])} entities vs {len(b[0])} faces, {len(b[1])} entities '
+                               f'(the failed attempt lost content); graph {g}')]
+    return []
+
+
 def check_collapse_all(g, r):
     """Termination statement: returns with no instance left, or raises RecursionError / FileNotFoundError, after at
     most n0 * sum_{k<limit} b^k collapses."""
@@ -886,6 +949,7 @@ def check_collapse_all(g, r):
         bad.append(('collapse-all', f'FileNotFoundError although every file exists: {g}'))
     if r['outcome'] == 'done' and r['brushes'] != r['collapses']:
         bad.append(('collapse-all', f'{r["collapses"]} collapses of one-brush files produced {r["brushes"]} brushes: {g}'))
+    bad += retry_experiment(impl(), g, r)
     return bad
 
 
@@ -953,7 +1017,7 @@ def correspond(ctx, drivers):
             ctx.count('brushes placed', len(st.old_brushes)); ctx.count('entities placed', len(st.old_ents))
             ctx.count('displacement faces placed', st.disp_faces[0])
             if st.error:
-                ctx.count('collapse_one raised')
+                ctx.count('collapse_one raised half-way (malformed axis value): template and later collapses still checked' if st.poisoned else 'collapse_one raised')
             if st.model_req is not None and st.view is not None:
                 reqs.append(st.model_req)
                 meta.append((seed, i, st.view))
@@ -1060,7 +1124,15 @@ def _fixed_vis_witness():
     return got == set(), got
 
 
+def _fixed_missing_witness():
+    g = {'files': [{'kids': [], 'hidden': 0}], 'init': [0, 0, 1], 'limit': 5}
+    bad = retry_experiment(impl(), g, {'outcome': 'missing'})
+    return not bad, bad
+
+
 def replay_known(ctx, finding):
+    if finding.get('key') == 'error-path':
+        return not _fixed_missing_witness()[0]
     if finding.get('key') == 'visgroups':
         return not _fixed_vis_witness()[0]
     if finding.get('key') == 'node-ids':
@@ -1100,6 +1172,10 @@ def replay(ctx, payload):
         r = inst.fixup_name(inp['name'])
         print('fixup_name', inp, '->', repr(r))
         return r == G.spec_fixup_name(inp['style'], inp['inst'], inp['name'])
+    if kind == 'fixed-missing-file':
+        ok, bad = _fixed_missing_witness()
+        print(bad)
+        return ok
     if kind == 'fixed-visgroup-strip':
         ok, got = _fixed_vis_witness()
         print('visgroup ids left on the collapsed entity brush:', got)
